@@ -209,7 +209,11 @@ func valueTerm(v ssa.Value, recv *ssa.Parameter) (string, bool) {
 	return "", false
 }
 
+// prepareBodyValFn: hcldec.prepareBodyVal, resolved as an anchor (rename-aware).
+var prepareBodyValFn *ssa.Function
+
 func checkC08(c *Ctx) {
+	prepareBodyValFn = c.P.LookupFunc("hcldec", "prepareBodyVal")
 	c.Rule("R1 typeterm: for every hcldec Spec kind, every freshly constructed value that decode (or an unexported helper it returns the result of) can return (cty.UnknownVal/NullVal/ListValEmpty/SetValEmpty/MapValEmpty/EmptyObjectVal/EmptyTupleVal/DynamicVal/StringVal on the absent, empty, unknown-body and error paths) has a type term equal to the term of that spec's impliedType(), modulo WithoutOptionalAttributesDeep, unless the implied type is dynamic; and no decode whose implied type is a fixed term returns the raw result of an expression evaluation (it must pass convert.Convert or be replaced by an unknown of the implied type)")
 	pkg := c.P.Pkg("hcldec")
 	specI := pkg.Types.Scope().Lookup("Spec").Type().Underlying().(*types.Interface)
@@ -497,7 +501,7 @@ func elemTerm(v ssa.Value, recv *ssa.Parameter, seen map[ssa.Value]bool) []strin
 			return []string{t}
 		}
 		ci := calleeOf(&x.Call)
-		if ci.static != nil && ci.name == "prepareBodyVal" {
+		if ci.static != nil && (ci.static == prepareBodyValFn || (prepareBodyValFn == nil && ci.name == "prepareBodyVal")) {
 			return elemTerm(x.Call.Args[0], recv, seen)
 		}
 		if ci.static == nil && !x.Call.IsInvoke() && isNamed(x.Call.Value.Type(), ctyPath+"/convert", "Conversion") {
